@@ -413,7 +413,14 @@ class HdlcFrameReader(MeterReaderBase[HdlcFrame]):
             frame_complete = True
 
         else:
+            # The flag sequence is part of the frame content.
             self._append_to_frame(self.FLAG_SEQUENCE)
+            if len(self._frame) > HdlcFrame.MAX_FRAME_LENGTH:
+                _LOGGER.debug(
+                    "Max frame length reached. Discard frame: %s",
+                    self._raw_frame_data.hex(),
+                )
+                self._goto_hunt_mode()
 
         return frame_complete
 
